@@ -316,6 +316,16 @@ def run_syntactic(prop, repo, outdir):
             st = "undischarged"
             res["undecided"].append(f"syntactic:statics:{u.reason[:120]}")
         res["obligations"].append({"id": oid, "kind": "syntactic", "status": st, "weight": 1, "unit": "SYN", "features": "async", "backend": "syntactic"})
+    # The syntactic side conditions are SUFFICIENT conditions read off the AST: when one holds, the clause it stands for is
+    # confirmed; when it does not, nothing is refuted (`.for_each_concurrent(max_in_flight, ..)` with
+    # `let max_in_flight = limit.into();` forwards the limit just as well). A mismatch therefore makes the property
+    # UNDECIDED, and the bounded native search on the real crate decides by example.
+    for v in res["violations"]:
+        res["undecided"].append(f"syntactic-condition-not-confirmed:{v['oid']}: {v['message'][:220]}")
+    res["violations"] = []
+    for o in res["obligations"]:
+        if o["status"] == "FAILED":
+            o["status"] = "undischarged"
     res["wall"] = time.time() - t0
     return res
 
@@ -341,7 +351,7 @@ REPLAY_BINS = {
     "C03": [("c_sched", [], ["C03"]), ("c_run", [], ["C03"])],
     "C07": [("c_run", [], ["C07"])],
     "C08": [("c08_interrupt", ["--features", "interruptible"])],
-    "C09": [("c_run", [], ["C09"])],
+    "C09": [("c_run", [], ["C09"]), ("c08_interrupt", ["--features", "interruptible"], ["C09"])],
     "C10": [("c_sched", [], ["C10"]), ("c_run", [], ["C10"])],
     "C18": [("c18_pops", ["--features", "hooks"])],
     "C13": [("c13_ranks", [])],
